@@ -236,7 +236,7 @@ def st_long_file(draw):
     policy, dlm = draw(st.sampled_from(FILE_POLICIES))
     if policy in ('quoted', 'quoted_rfc', 'simple'):
         dlm = draw(st.sampled_from([',', ';', '\t', '|', '::', '§']))
-    piece = st.one_of(st.sampled_from(['a', '"', dlm or 'x', '\n', '\r', '\r\n', '#', ' ', '""', '"a,b"', 'é', '𝄞', '"x\r\ny"', '#c\n', '\ufeff']),
+    piece = st.one_of(st.sampled_from(['a', '"', dlm or 'x', '\n', '\r', '\r\n', '#', ' ', '""', '"a,b"', 'é', '𝄞', '"x\r\ny"', '#c\n', '\ufeff', '\t', '\x0b', '\x0c', '\x1c', '\x85', '\xa0', '\u2003', 'a\tb', 'x\xa0y', ' \t ']),
                       st.text(st.characters(blacklist_categories=('Cs',)), max_size=4))
     text = ''.join(draw(st.lists(piece, min_size=0, max_size=50)))
     return {'kind': 'longfile', 'text': text, 'policy': policy, 'delim': dlm, 'comment': draw(st.sampled_from([None, '#', '#c'])), 'header': draw(st.booleans())}
